@@ -9,7 +9,8 @@ attribute products (MCCookie); a variant with the pinned commit's escape class (
 Spec -> code: the model's cases are exported and executed on the real code.  Code -> spec: model cases, a sweep of
 boundary code points and seeded random cases are run through dump_cookie / Response.set_cookie, the header is parsed
 back by sansio.http.parse_cookie, http.parse_cookie (environ) and the test client's jar; every recorded line is
-judged by CookieTrace.tla (which also reports drift from the implementation-shaped model).
+judged by CookieTrace.tla (which also reports drift from the implementation-shaped model).  Random Cookie header
+strings are additionally parsed by the real parser and compared with the scanner model (drift only, no verdict).
 """
 from __future__ import annotations
 
@@ -81,7 +82,7 @@ def run(ctx: Ctx):
 
     jobs = _model_cases(ctx, ("MCX_values", "MCX_attrsA", "MCX_attrsB") if q else ("MCXT_values", "MCX_attrsA", "MCX_attrsB"))
     jobs += [("sweep", c) for c in ck.sweep_cases()]
-    n = 2500 if q else 60000
+    n = 2000 if q else 40000
     jobs += [("rand", ctx.seed * 1000003 + i) for i in range(n)]
     results = pmap(_dispatch, jobs, workers=ctx.workers, chunksize=64)
     lines, cases = [], {}
@@ -95,6 +96,13 @@ def run(ctx: Ctx):
         if t % 2111 == 7:
             ctx.sample({"kind": job[0], "key": ck.text(case["key"]), "value": ck.text(case["value"])[:60].encode("unicode_escape").decode(),
                         "header": ck.text(out[0]["hdr"])[:160].encode("unicode_escape").decode(), "exc": out[0]["exc"]})
+    # arbitrary Cookie header strings through the real parser: no verdict, binds the scanner model to the code (drift)
+    base = len(jobs)
+    for j in range(1500 if q else 20000):
+        ln = ck.run_parse(ck.rand_cookie_string(ctx.seed * 7919 + j))
+        ln["t"], ln["i"] = base + j, 0
+        lines.append(ln)
+        ctx.count(1)
     by = {(ln["t"], ln["i"]): ln for ln in lines}
     for rj in ctx.judge(AREA, "CookieTrace", lines, batch=2500, timeout=1800):
         ln = by[(rj["t"], rj["i"])]
